@@ -39,13 +39,14 @@ const THIS_AE: &str = "THIS-SCP";
 const ACCEPTOR_MAX: u32 = 20_000;
 
 /// acceptor transfer syntax configurations
-const TS_CFGS: [&[&str]; 4] = [&[], &[EXPLICIT], &[IMPLICIT, EXPLICIT], &[DEFLATED]];
-const TS_CFG_NAMES: [&str; 4] = ["none", "E", "I+E", "D"];
+/// (the last four mix configured-but-unsupported / unknown UIDs with configured-and-supported ones)
+const TS_CFGS: [&[&str]; 8] = [&[], &[EXPLICIT], &[IMPLICIT, EXPLICIT], &[DEFLATED], &[DEFLATED, EXPLICIT], &[EXPLICIT, DEFLATED], &[UNKNOWN_TS, IMPLICIT], &[DEFLATED, UNKNOWN_TS]];
+const TS_CFG_NAMES: [&str; 8] = ["none", "E", "I+E", "D", "D+E", "E+D", "U+I", "D+U"];
 const MAXLENS: [Option<u32>; 5] = [None, Some(0), Some(1), Some(1018), Some(u32::MAX)];
 const ID_PATTERNS: [[u8; 4]; 5] = [[1, 3, 5, 7], [255, 1, 3, 5], [1, 1, 3, 3], [7, 5, 3, 1], [2, 0, 254, 4]];
 
-/// ordered transfer syntax lists of length 0-2 (indices into TS)
-fn ts_lists() -> Vec<Vec<usize>> {
+/// ordered transfer syntax lists of length 0-2 (0-3 with `three`) (indices into TS)
+fn ts_lists(three: bool) -> Vec<Vec<usize>> {
     let mut v = vec![vec![]];
     for a in 0..TS.len() {
         v.push(vec![a]);
@@ -53,6 +54,15 @@ fn ts_lists() -> Vec<Vec<usize>> {
     for a in 0..TS.len() {
         for b in 0..TS.len() {
             v.push(vec![a, b]);
+        }
+    }
+    if three {
+        for a in 0..TS.len() {
+            for b in 0..TS.len() {
+                for c in 0..TS.len() {
+                    v.push(vec![a, b, c]);
+                }
+            }
         }
     }
     v
@@ -577,6 +587,11 @@ fn rep_contexts(thorough: bool) -> Vec<Ctx> {
             Ctx { abs: 0, ts: vec![5, 1] },
             Ctx { abs: 2, ts: vec![] },
             Ctx { abs: 1, ts: vec![4] },
+            // unsupported-but-configurable before / after supported ones, supported-but-unconfigured in between
+            Ctx { abs: 0, ts: vec![3, 0, 1] },
+            Ctx { abs: 1, ts: vec![1, 3, 0] },
+            Ctx { abs: 0, ts: vec![5, 3, 2] },
+            Ctx { abs: 3, ts: vec![3, 5, 1] },
         ]);
     }
     v
@@ -590,16 +605,23 @@ fn main() {
         vx_kit::report::machinery("C28 precondition: Deflated must be registered-but-unsupported (registry built without `deflate`), JPEG 2000 registered, 1.9.9 unknown");
     }
     let thorough = check.thorough();
-    check.set_rule("acceptor: abstract syntaxes subset of {A,B} x transfer syntaxes {none,[E],[I,E],[D]} x promiscuous; request contexts (abstract in {A,B,C,A+NUL}) x (ordered list of 0-2 of {Implicit, Explicit, Implicit+NUL, Deflated (registered, unsupported), JPEG 2000 (stub, data set decodable), 1.9.9 (unknown)}): every single-context request x 5 id patterns; every 2- and 3-context request over 8 representative contexts (thorough: every 2-context request over all 172 contexts, 3-context over 16, 4-context over 8) x 5 id patterns (odd, 255 first, duplicated, descending, even/zero); header cross: protocol version {1,2,3} x application context {standard, other} x access control {any, called-title match, mismatch} x Maximum Length {absent,0,1,1018,2^32-1} over 8 requests x 4 acceptors. A case is (acceptor configuration, request); non-trivial = the acceptor answered and the answer was judged. Wire paths: every 97th case (and all header-cross cases with one context) through establish / establish_async over loopback TCP and the two hook twins");
+    check.set_rule("acceptor: abstract syntaxes subset of {A,B} x transfer syntaxes {none,[E],[I,E],[D],[D,E],[E,D],[1.9.9,I],[D,1.9.9]} (configured-but-unsupported/unknown UIDs mixed with supported ones) x promiscuous; request contexts (abstract in {A,B,C,A+NUL}) x (ordered list of 0-2 of {Implicit, Explicit, Implicit+NUL, Deflated (registered, unsupported), JPEG 2000 (stub, data set decodable), 1.9.9 (unknown)}): every single-context request (thorough: also every ordered list of 3 transfer syntaxes) x 5 id patterns; every 2- and 3-context request over 8 representative contexts (thorough: every 2-context request over all 172 contexts, 3-context over 20, 4-context over 8) x 5 id patterns (odd, 255 first, duplicated, descending, even/zero); header cross: protocol version {1,2,3} x application context {standard, other} x access control {any, called-title match, mismatch} x Maximum Length {absent,0,1,1018,2^32-1} over 4 requests x 6 acceptors. A case is (acceptor configuration, request); non-trivial = the acceptor answered and the answer was judged. Wire paths: every 97th case (and all header-cross cases with one context) through establish / establish_async over loopback TCP and the two hook twins");
     check.assume("registry predicate `get(uid)` exists and not `is_unsupported()` is read from the registry's public API (the negotiation logic, not the registry, is the subject)");
     check.assume("UID equality is modulo trailing NUL padding; a rejected context's transfer syntax field is not significant");
     check.assume("for protocol version mismatch both PS3.8's protocol-version-not-supported and no-reason-given are accepted (the statement leaves the choice)");
 
-    let tsl = ts_lists();
+    let tsl = ts_lists(false);
     let mut all_ctx = vec![];
     for abs in 0..ABSTRACTS.len() {
         for ts in &tsl {
             all_ctx.push(Ctx { abs, ts: ts.clone() });
+        }
+    }
+    // single-context requests: thorough also every ordered list of 3 transfer syntaxes
+    let mut single_ctx = vec![];
+    for abs in 0..ABSTRACTS.len() {
+        for ts in &ts_lists(thorough) {
+            single_ctx.push(Ctx { abs, ts: ts.clone() });
         }
     }
     let reps = rep_contexts(thorough);
@@ -610,7 +632,7 @@ fn main() {
         for ts_cfg in 0..TS_CFGS.len() {
             for promiscuous in [false, true] {
                 for ids in 0..ID_PATTERNS.len() {
-                    for c1 in &all_ctx {
+                    for c1 in &single_ctx {
                         cases.push(base(abs_cfg, ts_cfg, promiscuous, vec![c1.clone()], ids));
                     }
                     let two: &[Ctx] = if thorough && ids == 0 { &all_ctx } else { &reps };
@@ -644,7 +666,7 @@ fn main() {
     let body = cases.len();
     // header cross
     let mut header_cases = vec![];
-    for (abs_cfg, ts_cfg, promiscuous) in [(1u8, 0usize, false), (3, 2, false), (0, 0, true), (2, 1, true)] {
+    for (abs_cfg, ts_cfg, promiscuous) in [(1u8, 0usize, false), (3, 2, false), (0, 0, true), (2, 1, true), (3, 4, false), (1, 6, true)] {
         for rq in [vec![0usize], vec![1, 3], vec![2], vec![4, 6, 7]] {
             for version in [1u16, 2, 3] {
                 for app_other in [false, true] {
@@ -668,7 +690,7 @@ fn main() {
         }
     }
     cases.extend(header_cases.iter().cloned());
-    check.extra("universe", json!({"body": body, "header_cross": header_cases.len(), "contexts": all_ctx.len()}));
+    check.extra("universe", json!({"body": body, "header_cross": header_cases.len(), "contexts": all_ctx.len(), "single_contexts": single_ctx.len(), "acceptor_ts_configurations": TS_CFGS.len()}));
     check.par_range(cases.len() as u64, |l, i| run_accessor(l, &cases[i as usize]));
 
     // wire subset
